@@ -16,8 +16,8 @@ ASSUMPTIONS = ["fast-decaying solutions under purely relative tolerances are jud
                "'smooth' is relative to the step: steps more than twice as long as the width of the Gaussian feature they run into (bump problems) are not judged",
                "problems are contractive along the direction of integration (logarithmic norm <= 0), so the problem's own amplification is ~1",
                "tolerance unit per component: atol + rtol*max(|y_i|, 0.1*max_j|y_j|) (a component passing through zero is judged on the scale of the solution)"]
-FLOORS = {"quick": {"runs_checked": 45, "local_steps_checked": 1000, "rejected_attempts_forward": 30, "rejected_attempts_backward": 30, "blowup_runs": 6, "blowup_raised": 1, "closing_step_rejected": 8, "decaying_runs_judged_locally": 12},
-          "thorough": {"runs_checked": 400, "local_steps_checked": 10000, "rejected_attempts_forward": 300, "rejected_attempts_backward": 300, "blowup_runs": 25, "blowup_raised": 5, "closing_step_rejected": 30, "decaying_runs_judged_locally": 12}}
+FLOORS = {"quick": {"runs_checked": 45, "local_steps_checked": 1000, "rejected_attempts_forward": 30, "rejected_attempts_backward": 30, "blowup_runs": 6, "blowup_raised": 1, "closing_step_rejected": 8, "decaying_runs_judged_locally": 12, "runs_with_per_component_atol": 10},
+          "thorough": {"runs_checked": 400, "local_steps_checked": 10000, "rejected_attempts_forward": 300, "rejected_attempts_backward": 300, "blowup_runs": 25, "blowup_raised": 5, "closing_step_rejected": 30, "decaying_runs_judged_locally": 12, "runs_with_per_component_atol": 40}}
 K_TOL = 200.0
 K_GLOB = 20.0
 K_LOC = 50.0
@@ -46,8 +46,33 @@ class LinExp:
         return (expm(self.A * (float(t) - self.t0)) @ self.y0v).astype(dtype)
 
 
+class LinTwoScales(LinExp):
+    """Two uncoupled linear blocks whose solutions differ in magnitude by `small` (1e-5): with per-component absolute tolerances proportional to the
+    block's magnitude every component has its own tolerance unit."""
+
+    def __init__(self, seed, direction, small):
+        b1, b2 = LinExp(2, seed, direction), LinExp(2, seed + 17, direction)
+        rng = rng_for(504, seed)
+        a_, w_ = float(rng.uniform(0.1, 0.4)), float(rng.uniform(5.0, 9.0))
+        self.A = np.zeros((4, 4))
+        # the SMALL block is the fast one (a lightly damped rotation at 5-9 rad per unit time): it is the one that has to limit the step
+        self.A[:2, :2], self.A[2:, 2:] = b1.A, np.array([[-float(direction) * a_, w_], [-w_, -float(direction) * a_]])
+        self.y0v = np.concatenate([b1.y0v, small * b2.y0v])
+        self.dim, self.shape, self.t0 = 4, (4,), None
+        self.blocks = [slice(0, 2), slice(2, 4)]
+
+
+def _floor_mag(prob, v):
+    """|v| with a floor of 10% of the largest component (of the same block): a component passing through zero is judged on the solution's scale."""
+    v = np.abs(np.asarray(v, dtype=np.longdouble))
+    out = np.empty_like(v)
+    for sl in getattr(prob, "blocks", [slice(None)]):
+        out[sl] = np.maximum(v[sl], 0.1 * float(np.max(v[sl])))
+    return out
+
+
 def _local_flow(prob, kind, ta, ya, tb):
-    if kind == "lin":
+    if kind in ("lin", "lin2s"):
         from scipy.linalg import expm
         return expm(prob.A * (tb - ta)) @ ya
     from scipy.integrate import solve_ivp
@@ -104,6 +129,18 @@ def gen_cases(tier, seed):
             t0 = float(rng.uniform(-2, 2))
             cases.append(dict(kind="tol", method=name, rich=0, problem="lin", rate=float(rng.uniform(3.0, 6.0)), dim=2, rtol=rt, atol=1e-13, t0=t0, tf=t0 + d * span,
                               dt=0.05 * span, dtfrac=0.05, decaying=True, pseed=int(rng.integers(1 << 30)), cost=4))
+    # per-component absolute tolerances (an array, as scipy's solve_ivp accepts): two uncoupled blocks of magnitude 1 and 1e-5, atol_i proportional to
+    # the block's magnitude - every component is judged in ITS OWN unit atol_i + rtol*|y_i| (explicit pairs; the implicit schemes do not take arrays)
+    rnga = rng_for(503, seed)
+    for name in [n for n in adaptive if M[n]["explicit"]]:
+        for r in range(2 if tier == "quick" else 8):
+            d = 1 if r % 2 == 0 else -1
+            span = float(rnga.uniform(1.5, 4.0))
+            t0 = float(rnga.uniform(-3, 3))
+            small = float(rnga.choice([1e-5, 1e-4, 1e-6]))
+            a_ = 10 ** float(rnga.uniform(-8, -5))
+            cases.append(dict(kind="tol", method=name, rich=0, problem="lin2s", small=small, dim=4, rtol=a_ * 0.1, atol=[a_, a_, a_ * small, a_ * small], t0=t0, tf=t0 + d * span,
+                              dt=0.05 * span, dtfrac=0.05, pseed=int(rnga.integers(1 << 30)), cost=4))
     # solution magnitudes far from 1 with atol and rtol far apart (atol vs rtol*|y| must be told apart), and problems that are quiet
     # until a sharp feature just before the end (the closing step of the call is rejected and retried)
     for name in adaptive:
@@ -205,6 +242,10 @@ def run_case(spec):
         prob = QuietBump(spec["dim"], spec["pseed"], t0, tf)
     elif spec["problem"] == "ms_bump":
         prob = LateBump(Manufactured(spec["dim"], spec["pseed"], direction=d), t0, tf)
+    elif spec["problem"] == "lin2s":
+        prob = LinTwoScales(spec["pseed"], d, spec["small"])
+        prob.t0 = t0
+        spec = dict(spec, atol=np.asarray(spec["atol"], dtype=np.float64))
     else:
         prob = LinExp(spec["dim"], spec["pseed"], d, rate=spec.get("rate", 1.0))
         prob.t0 = t0
@@ -298,7 +339,7 @@ def run_case(spec):
     wk = 0
     for k in range(min(len(t), first_unresolved)):
         ys = prob.ystar(float(t[k]))
-        mag = np.maximum(np.abs(ys), 0.1 * float(np.max(np.abs(ys))))    # a component passing through zero is judged on the solution's scale
+        mag = _floor_mag(prob, ys)    # a component passing through zero is judged on the solution's scale
         r = float(np.max(np.abs(y[k].astype(np.longdouble) - ys) / (spec["atol"] + spec["rtol"] * mag)))
         nmem = int(np.sum(np.abs(tl[:k + 1] - tl[k]) <= T_mem)) if k else 1
         worst = max(worst, r)
@@ -308,6 +349,8 @@ def run_case(spec):
         if abs(float(t[-1]) - tf) > 64 * 2.3e-16 * max(1.0, abs(tf)):
             rec.violate("closing_step", "call_did_not_end_at_its_target", feats, t_last=float(t[-1]), target=tf)
     rec.bump("runs_checked")
+    if spec["problem"] == "lin2s":
+        rec.bump("runs_with_per_component_atol")
     rec.bump("states_checked", len(t))
     rec.nontrivial = len(t) >= 6
     fam = "rich" if spec["rich"] else info["family"]
@@ -331,7 +374,7 @@ def run_case(spec):
                 continue
             ref = _local_flow(prob, spec["problem"], float(t[k]), y[k], float(t[k + 1]))
             ymag = np.maximum(np.abs(y[k]), np.abs(y[k + 1]))
-            scale = spec["atol"] + spec["rtol"] * np.maximum(ymag, 0.1 * float(np.max(ymag)))
+            scale = spec["atol"] + spec["rtol"] * np.asarray(_floor_mag(prob, ymag), dtype=np.float64)
             r = float(np.max(np.abs(y[k + 1] - ref) / scale))
             rec.bump("local_steps_checked")
             if r > wl:
